@@ -334,11 +334,56 @@ class LinkRun(Bounded):
     def native_inputs(self, case, alphabet, maxlen, rng, extra=0):
         for k in DAGS:
             yield {'dag': k}
+        if extra:
+            # thorough tier: random DAGs of static / shared libraries in nested directories, listed in random order
+            for t in range(24):
+                n = rng.choice((3, 4, 5))
+                kinds = [rng.choice(('static', 'shared')) for _ in range(n)]
+                deps = [sorted(rng.sample(range(i + 1, n), rng.randint(0, min(2, n - i - 1)))) for i in range(n)]
+                dirs = [rng.choice(('', 'a', 'a/b', 'c d', 'x/y/z')) for _ in range(n)]
+                tops = sorted(rng.sample(range(n), rng.randint(1, 2)))
+                yield {'random': {'kinds': kinds, 'deps': deps, 'dirs': dirs, 'tops': tops, 'exe_dir': rng.choice(('', 'bin', 'o/p'))}}
+
+    @staticmethod
+    def random_project(spec):
+        n = len(spec['kinds'])
+        lines, sources = [], {}
+        for i in reversed(range(n)):            # dependencies are declared first
+            name = (spec['dirs'][i] + '/' if spec['dirs'][i] else '') + 'l%d' % i
+            fn = 'static_library' if spec['kinds'][i] == 'static' else 'shared_library'
+            lines.append("l%d = %s(%r, files=['l%d.c'], libs=[%s])" % (i, fn, name, i, ', '.join('l%d' % j for j in spec['deps'][i])))
+            decl = ''.join('int f%d(void); ' % j for j in spec['deps'][i])
+            sources['l%d.c' % i] = '%sint f%d(void) { return %d%s; }\n' % (decl, i, 1 << i, ''.join(' + f%d()' % j for j in spec['deps'][i]))
+
+        def value(i):
+            return (1 << i) + sum(value(j) for j in spec['deps'][i])
+        exe = (spec['exe_dir'] + '/' if spec['exe_dir'] else '') + 'exe'
+        lines.append("exe = executable(%r, files=['main.c'], libs=[%s])" % (exe, ', '.join('l%d' % j for j in spec['tops'])))
+        lines.append('install(exe)')
+        sources['main.c'] = '%sint main(void) { return (%s) - %d; }\n' % (
+            ''.join('int f%d(void); ' % j for j in spec['tops']), ' + '.join('f%d()' % j for j in spec['tops']),
+            sum(value(j) for j in spec['tops']))
+        # a static library reachable along two paths: the recorded link-order finding
+        paths = {}
+
+        def count(i):
+            paths[i] = paths.get(i, 0) + 1
+            for j in spec['deps'][i]:
+                count(j)
+        for j in spec['tops']:
+            count(j)
+        diamond = any(c > 1 for i, c in paths.items())
+        return '\n'.join(lines) + '\n', sources, [exe], diamond
 
     def native_check(self, case, raw):
         import shutil, subprocess, tempfile
         from pyvc.interp import REPO
-        body, sources, exes, inst = DAGS[raw['dag']]
+        diamond = False
+        if 'random' in raw:
+            body, sources, exes, diamond = self.random_project(raw['random'])
+            inst = True
+        else:
+            body, sources, exes, inst = DAGS[raw['dag']]
         top = tempfile.mkdtemp(prefix='pyvc_link_')
         try:
             src, b = top + '/src', top + '/b'
@@ -367,7 +412,8 @@ class LinkRun(Bounded):
                 return self.fail(case, raw, 'configure_succeeds', stderr=r.stderr[-500:])
             r = run(['make', '-C', b])
             if r.returncode != 0:
-                return self.fail(case, raw, 'every_target_links_with_the_real_toolchain', output=(r.stdout + r.stderr)[-700:])
+                return self.fail(case, dict(raw, shared_dependency=diamond) if diamond else raw,
+                                 'every_target_links_with_the_real_toolchain', output=(r.stdout + r.stderr)[-700:])
             for e in exes:
                 pr = run([b + '/' + e], cwd='/')
                 if pr.returncode != 0:
